@@ -426,7 +426,8 @@ func (in *Inst) RecordTxn(rec *Recorder, aops []abs.AOp, results []*ovsdb.Operat
 	}
 	dump, refs, err := in.Observe()
 	if err != nil {
-		return nil, err
+		ob, _ := json.Marshal(aops)
+		return nil, fmt.Errorf("%v (after operations %s)", err, string(ob))
 	}
 	notifs := []interface{}{}
 	for _, m := range in.Mons {
